@@ -84,11 +84,46 @@ func funcInventory(pkgs []*packages.Package) []string {
 }
 
 // newHelpers: declarations not in the baseline inventory that can be considered for inlining.
+// shortKey: "<package path>#<function or method name>" of a types.Func full name such as
+// "(*pkg/path.T).m" or "pkg/path.f".
+func shortKey(full string) string {
+	s := strings.TrimPrefix(full, "(")
+	s = strings.TrimPrefix(s, "*")
+	i := strings.LastIndex(s, ".")
+	if i < 0 {
+		return full
+	}
+	name := s[i+1:]
+	rest := strings.TrimSuffix(s[:i], ")")
+	// rest is "pkg/path.T" (method) or "pkg/path" (function)
+	slash := strings.LastIndex(rest, "/")
+	if j := strings.Index(rest[slash+1:], "."); j >= 0 {
+		rest = rest[:slash+1+j]
+	}
+	return rest + "#" + name
+}
+
 func newHelpers(pkgs []*packages.Package, base map[string]bool, skip map[string]bool) map[*types.Func]declInfo {
 	out := map[*types.Func]declInfo{}
-	for _, d := range moduleDecls(pkgs) {
+	decls := moduleDecls(pkgs)
+	present := map[string]bool{}
+	for _, d := range decls {
+		present[d.fn.FullName()] = true
+	}
+	// anchors that went missing under their recorded name: a function of the same name in the same
+	// package is that anchor, moved to another receiver (or between method and function) - not a helper
+	movedAnchor := map[string]bool{}
+	for b := range base {
+		if !present[b] {
+			movedAnchor[shortKey(b)] = true
+		}
+	}
+	for _, d := range decls {
 		n := d.fn.FullName()
 		if base[n] || skip[n] || d.fn.Name() == "init" || d.fn.Name() == "main" {
+			continue
+		}
+		if movedAnchor[shortKey(n)] {
 			continue
 		}
 		sig := d.fn.Type().(*types.Signature)
